@@ -54,7 +54,9 @@ def full_opts(o):
 
 def new_rundir(tag="run"):
     _counter[0] += 1
-    d = os.path.join(SCRATCH, "verif-%d-%d-%s" % (os.getpid(), _counter[0], tag))
+    # fixed-length name: the path is written into headers and parameter files, its length must not vary with the number of digits of the
+    # process id (a longer header moves every buffer spill = the number and position of write events)
+    d = os.path.join(SCRATCH, "verif-%07d-%04d-%s" % (os.getpid(), _counter[0], tag))
     shutil.rmtree(d, ignore_errors=True)
     os.makedirs(d)
     return d
